@@ -19,7 +19,7 @@ impl Adapter for HedgeAd {
         "hedge"
     }
     fn gen_cfg(&mut self, rng: &mut Rng, _size: Size) -> Value {
-        json!({"hm": rng.below(3), "max": 1 + rng.below(4), "mode": *rng.pick(&["fixed", "fixed", "par", "dyn"]), "d": 1 + rng.below(3), "lazy": if rng.pct(30) { 1 } else { 0 }})
+        json!({"hm": rng.below(4), "max": 1 + rng.below(4), "mode": *rng.pick(&["fixed", "fixed", "par", "dyn"]), "d": 1 + rng.below(3), "lazy": if rng.pct(30) { 1 } else { 0 }})
     }
     fn build(&mut self, cfg: &Value, sim: &mut Sim) {
         let mut b = HedgeLayer::builder().max_hedged_attempts(cfg["max"].as_u64().unwrap() as usize);
@@ -32,9 +32,7 @@ impl Adapter for HedgeAd {
     }
     fn mk(&mut self, req: &Req) -> CallFut {
         let f = self.svc.as_mut().unwrap().with(|s| {
-            let w = futures::task::noop_waker();
-            let mut cx = std::task::Context::from_waker(&w);
-            let _ = s.poll_ready(&mut cx);
+            ready_unless_parked(s);
             s.call(req.clone())
         });
         Box::pin(async move {
